@@ -14,7 +14,7 @@
 
 namespace vf
 {
-constexpr int kMaxDim = 4;
+constexpr int kMaxDim = 6;
 
 struct RunSample
 {
@@ -86,6 +86,8 @@ struct CostProgram
     double wn_w = 0, wn_0 = 0, wn_1 = 1;     // wn_w ((tg-wn_0)(wn_1-tg))^3 |p - wn_c|^2 inside the window (wn_0, wn_1), exactly zero outside
     double wn_c[kMaxDim] = {};
     double dl_w = 0, dl_t = 0;               // dl_w max(0, tg - dl_t)^3 (1 + 0.1 |v|^2): a time-window penalty, exactly zero before the deadline
+    double bar_r2 = 0;                       // hard keep-out barrier: the running cost is +inf when |p - bar_c|^2 < bar_r2 (C12 only)
+    double bar_c[kMaxDim] = {};
     double seg_w = 0;                        // whole running cost multiplied by (1 + seg_w (i mod 5))
     bool usesClass[5] = {false, false, false, false, false}; // which of gp gv ga gj gs are ever written
     bool usesTime = false;
